@@ -72,5 +72,11 @@ CHECKS = {
   "text": "For Result (all four types, accumulate on/off), SimulationResults and SimulationParameters (parent and unpacked child) the real _to_dict and _from_dict are symbolically executed on objects whose statistics, lists, choice counts, current_rep, runned_reps and unpack index are symbolic; every field compared by __eq__ (and num_updates) is proved restored for all values. The JSON hooks keep numpy integer/float scalars exact, invert sets and array descriptors (data, dtype, shape, any memory order) and reject unsupported objects. Text-level JSON/pickle, file dispatch, idempotence and file-name injectivity are bounded native checks over a broad value generator.",
   "note": "json/pickle structural contracts assumed (conformance-checked natively); np.float128 and tuples excluded; file-name injectivity bounded.",
  },
+ "C01": {
+  "category": "proof",
+  "technique": "contract-based deductive verification: real demodulate() executed on symbolic samples (real numpy argmin on symbolic squared distances, one path per decision) with an ML postcondition; modulate/BPSK contracts; complete enumeration of the finite order/offset configuration space; bounded native cross-check",
+  "text": "For constellations built by the real constructors (QPSK, PSK 4/8/16, QAM 4/16) the generic detector is symbolically executed on fully symbolic complex samples: on every path the returned index minimises the squared distance over the whole constellation, the output keeps the shape and element order of the input for 1-D, C-ordered, Fortran-ordered and transposed arrays, also after a phase-offset change following an earlier demodulation. modulate is the table lookup for symbolic indexes and raises ValueError for idx >= M; BPSK closed forms hold for every input; PSK symbols have unit energy for a symbolic phase offset. Round trip, distinct points, unit mean energy (PSK 2..2^10 x offsets, QAM 4..4^6) and rejection of every unsupported cardinality up to 4100 are decided by complete enumeration on the real code.",
+  "note": "Ideal reals for the distance comparisons (sqrt strictly increasing); ties excluded; symbolic detection proved for M <= 16, larger orders by the bounded brute-force cross-check; negative indexes wrap (documented numpy behaviour).",
+ },
 }
 NOT_APPLICABLE = {}
